@@ -175,10 +175,9 @@ func (h *Handler) OnAnnounce(ctx *gortsplib.ServerHandlerOnAnnounceCtx) (*base.R
 	h.recMu.Lock()
 	defer h.recMu.Unlock()
 	if h.recStream != nil {
+		// (the previous publisher's session is left alone: the checks judge the library's own
+		// session lifecycle, so the application must not close sessions behind its back)
 		h.recStream.Close()
-		if h.publisher != nil && h.publisher != ctx.Session {
-			h.publisher.Close()
-		}
 	}
 	h.recDesc = ctx.Description
 	h.recStream = &gortsplib.ServerStream{Server: h.w.S, Desc: ctx.Description}
